@@ -412,6 +412,7 @@ Section FixedLib.
     Variable q : list entry.
     Hypothesis Hnd : NoDup (keys l1).
     Hypothesis HU : in_U l1.
+    Hypothesis Hq : forall e, In e q -> In e l1.
 
     Let ids := map sid (unsent (map seg_of q)).
     Let l3 := mark_all l1 (unsent (map seg_of q)).
@@ -455,8 +456,129 @@ Section FixedLib.
       apply memN_in in M. unfold ids in M. rewrite unsent_map, map_map in M.
       apply in_map_iff in M as (e' & Hk & Hin). apply filter_In in Hin as [Hin _].
       cbn [sid seg_of] in Hk.
-      (* same key in a store with unique keys: same entry, provided e' is stored *)
-      admit.
-    Abort.
+      pose proof (find_in_nodup _ _ Hnd He) as F1.
+      pose proof (find_in_nodup _ _ Hnd (Hq _ Hin)) as F2.
+      unfold key in *. rewrite Hk in F2. rewrite F1 in F2. injection F2 as <-. exact Hin.
+    Qed.
+
+    (* the sent-closure survives the marking, because every marked entry lies on the chain q whose
+       entries are all sent afterwards *)
+    Lemma l3_lc x y : lc l1 -> chain l1 x y q -> y = ri r0 -> lc l3.
+    Proof.
+      intros Hlc Hc Hy e3 He3 Hs3. destruct (in_mark_all _ _ _ Hnd He3) as (e0 & He0 & ->).
+      rewrite flag_if_eb. change (esent (g e0) = true) in Hs3.
+      destruct (esent e0) eqn:Es0.
+      - destruct (Hlc e0 He0 Es0) as [H|(p & Hp & Hps)]; [left; exact H|].
+        right. exists (g p). split; [rewrite l3_find, Hp; reflexivity | apply g_keeps_sent; exact Hps].
+      - pose proof (flagged_in_q e0 He0 Es0 Hs3) as Hin.
+        apply in_split in Hin as (q1 & q2 & Heq). rewrite Heq in Hc.
+        pose proof (chain_prefix _ _ _ _ _ _ Hc) as Hpre.
+        destruct (chain_snoc_inv _ _ _ _ _ Hpre) as (_ & _ & Hc1).
+        destruct q1 as [|pe q1'] using rev_ind.
+        + left. apply chain_nil_inv in Hc1. rewrite Hc1. exact Hy.
+        + clear IHq1'. destruct (chain_snoc_inv _ _ _ _ _ Hc1) as (_ & Hfp & _).
+          right. exists (g pe). split; [rewrite l3_find, Hfp; reflexivity|].
+          apply g_sent_q. rewrite Heq. apply in_or_app. left. apply in_or_app. right. left. reflexivity.
+    Qed.
   End Marked.
+
+  (* ---------------------------------------------------------------- the triggering step *)
+
+  Lemma filter_unsent_nil C : Forall (fun e => esent e = true) C -> filter (fun e => negb (esent e)) C = [].
+  Proof. induction 1 as [|e l He Hl IH]; cbn [filter]; [reflexivity|]. rewrite He. exact IH. Qed.
+
+  Lemma bic_marked l1 q d x p e : NoDup (keys l1) -> in_U l1 -> (forall a, In a q -> In a l1) ->
+    lib_db d -> store d = mark_all l1 (unsent (map seg_of q)) ->
+    chain l1 x (ri r0) (p ++ [e]) ->
+    block_in_chain d (bref (eb e)) (rn r0) = Some (mkR (ri r0) (rn r0)).
+  Proof.
+    intros Hnd HU Hq Hl Hd Hc.
+    destruct (chain_snoc_inv _ _ _ _ _ Hc) as (_ & Hf & _).
+    pose proof (find_some _ _ _ Hf) as [_ Hk]. unfold key in Hk.
+    pose proof (l3_chain l1 q _ _ _ Hc) as Hc3. rewrite <- Hd in Hc3.
+    set (g := flag_if (map sid (unsent (map seg_of q)))) in *.
+    assert (Hf3 : find x (store d) = Some (g e)).
+    { rewrite Hd. unfold g. rewrite (l3_find l1 q), Hf. reflexivity. }
+    pose proof (bic_to_lib d x (g e) (map g (p ++ [e])) Hl) as B.
+    assert (Eg : eb (g e) = eb e) by apply flag_if_eb. rewrite Eg in B. unfold bref. rewrite Hk.
+    apply B.
+    - rewrite Hd. apply l3_inU; assumption.
+    - rewrite Hd. apply l3_nodup; assumption.
+    - exact Hf3.
+    - exact Hc3.
+    - rewrite map_app. destruct (map g p); discriminate.
+  Qed.
+
+  Lemma trigger_finish s1 S b pP C R Uh junc :
+    Inv s1 S -> In b U ->
+    chain (store (db s1)) (bid b) (ri r0) (pP ++ [mkEntry b false]) ->
+    pP = C ++ R ->
+    Forall (fun e => esent e = true) C ->
+    S = rev (map eb (C ++ Uh)) ->
+    exists s3 evs,
+      process_tail cfg s1 b (rev Uh) (filter esent R) junc (map seg_of (pP ++ [mkEntry b false])) None = (s3, evs, ROk) /\
+      apply_all (ri r0) S evs = Some (rev (map eb (pP ++ [mkEntry b false]))) /\
+      Inv s3 (rev (map eb (pP ++ [mkEntry b false]))).
+  Proof.
+    intros HI Hb Hc HP HC HS.
+    pose proof HI as [Hnd HU Hl Hlc Hh].
+    set (en := mkEntry b false) in *. set (q := pP ++ [en]) in *.
+    assert (Hq : forall e, In e q -> In e (store (db s1))) by (intros e He; eapply chain_in; eassumption).
+    assert (HcP : chain (store (db s1)) (bparent b) (ri r0) pP).
+    { destruct (chain_snoc_inv _ _ _ _ _ Hc) as (_ & _ & H). exact H. }
+    rewrite HP in HcP.
+    destruct (sent_prefix _ _ _ C R Hlc Hnd HcP eq_refl HC) as (Rs & Ru & HR & HRs & HRu).
+    destruct (filter_sent_split Rs Ru HRs HRu) as [F1 F2].
+    assert (Hun : filter (fun e => negb (esent e)) q = Ru ++ [en]).
+    { unfold q. rewrite HP, HR, !filter_app, (filter_unsent_nil C HC), <- filter_app, F2. reflexivity. }
+    destruct (process_tail_ok s1 b (rev Uh) (filter esent R) junc (map seg_of q)) as
+      (s3 & evU & evR & evN & Hrun & HmU & HsU & HmR & HsR & HmN & HsN & Hst & Hex & Hlr & Hls).
+    - exact Hl.
+    - unfold q. destruct pP; discriminate.
+    - intros d ls Hd He Hlb Hin.
+      assert (Hld : lib_db d) by (destruct Hl as [A B]; split; congruence).
+      destruct Hin as [Hin|Hold].
+      + rewrite unsent_map, map_map in Hin. apply in_map_iff in Hin as (e & <- & Hin). cbn [sent seg_of].
+        apply filter_In in Hin as [Hin _].
+        rewrite (L_lib (eb e) (HU e (Hq e Hin))).
+        apply in_split in Hin as (q1 & q2 & Heq). rewrite Heq in Hc.
+        eapply (bic_marked _ q d _ q1 e Hnd HU Hq Hld Hd). eapply chain_prefix. exact Hc.
+      + rewrite Hold in Hh. destruct Hh as (HhU & pH & HcH & Hne & _ & _).
+        rewrite (L_lib ls HhU).
+        destruct pH as [|eh pH'] using rev_ind; [congruence|]. clear IHpH'.
+        destruct (chain_snoc_inv _ _ _ _ _ HcH) as (_ & Hfh & _).
+        rewrite <- (stored_is_self _ _ _ HU HhU Hfh).
+        eapply (bic_marked _ q d _ pH' eh Hnd HU Hq Hld Hd). exact HcH.
+    - exists s3, (evU ++ evR ++ evN). split; [exact Hrun|]. split.
+      + (* the consumer *)
+        rewrite HS, map_app, rev_app_distr.
+        rewrite (apply_all_app _ _ evU _ (rev (map eb C))).
+        2:{ apply apply_undos; [exact HsU | rewrite HmU, map_rev; reflexivity]. }
+        assert (HmRN : map eblk (evR ++ evN) = map eb (R ++ [en])).
+        { rewrite map_app, HmR, HmN, unsent_map, map_map. cbn [sent seg_of].
+          change (fun x : entry => eb x) with eb. rewrite Hun, HR, F1, <- map_app, app_assoc. reflexivity. }
+        rewrite (apply_news (ri r0) (evR ++ evN) (map eb (R ++ [en])) (rev (map eb C))).
+        * f_equal. unfold q. rewrite HP, <- app_assoc, (map_app eb C), rev_app_distr. reflexivity.
+        * apply Forall_app. split; assumption.
+        * exact HmRN.
+        * destruct (chain_linked _ _ _ _ Hc) as [Hlk _]. unfold q in Hlk. rewrite HP, <- app_assoc, map_app in Hlk.
+          apply linked_app in Hlk as [_ Hlk].
+          destruct (rev (map eb C)); exact Hlk.
+      + (* the invariant *)
+        set (g := flag_if (map sid (unsent (map seg_of q)))).
+        pose proof (l3_chain _ q _ _ _ Hc) as Hc3. fold g in Hc3.
+        constructor.
+        * rewrite Hst. apply l3_nodup; assumption.
+        * rewrite Hst. apply l3_inU; assumption.
+        * destruct Hl as [A B]. split; congruence.
+        * rewrite Hst. eapply l3_lc; try eassumption. reflexivity.
+        * rewrite Hls, unsent_map, Hun, map_app, rev_app_distr. cbn [map rev app sent seg_of eb en].
+          split; [exact Hb|]. exists (map g q). rewrite Hst. split; [exact Hc3|].
+          split; [unfold q; rewrite map_app; destruct (map g pP); discriminate|].
+          split.
+          -- rewrite map_map, rev_involutive. apply map_ext. intros a. apply flag_if_eb.
+          -- apply Forall_forall. intros a Ha. apply in_map_iff in Ha as (a0 & <- & Ha0).
+             apply (g_sent_q q a0 Ha0).
+  Qed.
+
 End FixedLib.
